@@ -728,3 +728,102 @@ def run_large(ctx, spec):
         viol("predictive variance deviates from the dense expression by %.3g (tol %.3g)"
              % (float(np.max(np.abs(var - var_r))), tolV), "variance")
     ctx.count(("gpl", spec), nontrivial=bool(tolN < 1e-3 * (abs(nll_r) + n)))
+
+
+# --------------------------------------------------------------------------
+# fit streams on GaussianProcessRegression: first fit, refit on more data, with the optimiser failing in every
+# restart (harness-side mock of scipy.optimize.minimize as referenced from optimization_utils): after EVERY fit
+# the model's predictions are the dense posterior of the data of THAT fit under model.get_params()
+# --------------------------------------------------------------------------
+def gen_fit(rng, k):
+    d = rng.randint(1, 3)
+    return dict(d=d, ard=bool(d > 1 and rng.random() < 0.6), nA=rng.randint(3, 7), nB_extra=rng.randint(2, 6),
+                t=rng.randint(2, 4), data_seed=rng.randrange(10 ** 9), reset=bool(rng.random() < 0.5),
+                first_fails=bool(k % 2 == 0), n_starts=rng.choice([1, 2]))
+
+
+def _failing_minimize(*args, **kwargs):
+    raise FloatingPointError("simulated failure of the L-BFGS line search")
+
+
+def run_fit(ctx, spec):
+    import random
+    from unittest import mock
+    from syne_tune.optimizer.schedulers.searchers.bayesopt.gpautograd.kernel import Matern52
+    from syne_tune.optimizer.schedulers.searchers.bayesopt.gpautograd.gp_regression import GaussianProcessRegression
+    from syne_tune.optimizer.schedulers.searchers.bayesopt.gpautograd.constants import (
+        OptimizationConfig, MIN_POSTERIOR_VARIANCE)
+    from syne_tune.optimizer.schedulers.searchers.bayesopt.gpautograd import optimization_utils
+    d, nA, nB, t = spec["d"], spec["nA"], spec["nA"] + spec["nB_extra"], spec["t"]
+    drng = random.Random(spec["data_seed"])
+    XB = np.array([[drng.random() for _ in range(d)] for _ in range(nB)])
+    yB = np.array([[math.sin(4.0 * XB[i, 0]) + 0.3 * drng.gauss(0, 1) + 0.5] for i in range(nB)])
+    XA, yA = XB[:nA].copy(), yB[:nA].copy()
+    Xt = np.array([[drng.random() for _ in range(d)] for _ in range(t)])
+
+    def viol(what, quantity, step):
+        ctx.violation("property", "[fit stream, step '%s'] %s" % (step, what), case=dict(kind="gpf", spec=spec),
+                      signature=dict(component="gp_model_fit", quantity=quantity, step=step,
+                                     fit_reset_params=spec["reset"]))
+
+    def check(model, X, y, step):
+        if model.states is None:
+            viol("model.states is None after fit: no usable posterior state", "no_state", step)
+            return
+        nd = model.states[0].num_data
+        if nd != X.shape[0]:
+            viol("posterior state is based on %d cases but fit was called with %d cases" % (nd, X.shape[0]),
+                 "stale_state", step)
+        prm = {k_: float(v) for k_, v in model.get_params().items()}
+        ibs = [prm["kernel_inv_bw"]] * d if "kernel_inv_bw" in prm else [prm["kernel_inv_bw%d" % i] for i in range(d)]
+        ref = RefMatern(ibs, prm["kernel_covariance_scale"])
+        mval, noise = prm.get("mean_mean_value", 0.0), prm["noise_variance"]
+        (mu, var), = model.predict(Xt.copy())
+        mu, var = np.asarray(mu).reshape(-1), np.asarray(var).reshape(-1)
+        K_impl = np.asarray(model.likelihood.kernel(X, X))
+        sig = find_sigsq(K_impl, noise)
+        if sig is None:
+            return
+        A = ref.k(X, X) + sig * np.eye(len(X))
+        Kt = ref.k(X, Xt)
+        alpha, beta = np.linalg.solve(A, y.reshape(-1) - mval), np.linalg.solve(A, Kt)
+        sv = np.linalg.svd(A, compute_uv=False)
+        cond, ainv = float(sv[0] / sv[-1]), 1.0 / float(sv[-1])
+        na = len(X)
+        ktol = ref.tol(np.vstack([X, Xt]), np.vstack([X, Xt]))
+        nrm = lambda a: float(np.linalg.norm(a))   # noqa: E731
+        ce = C_TOL * (na + 2) * EPS * cond
+        mean_r = mval + Kt.T @ alpha
+        var_r = np.maximum(ref.diag(Xt) - np.sum(Kt * beta, axis=0), MIN_POSTERIOR_VARIANCE)
+        tolM = max(ce * (nrm(Kt[:, s_]) * nrm(alpha) + abs(mean_r[s_])) + 2 * ktol * float(np.sum(np.abs(alpha)))
+                   + 4 * ainv * na * ktol * nrm(Kt[:, s_]) * nrm(alpha) for s_ in range(t))
+        tolV = max(ce * (nrm(Kt[:, s_]) * nrm(beta[:, s_]) + ref.cs) + ktol * (1 + 4 * float(np.sum(np.abs(beta[:, s_]))))
+                   + 4 * ainv * na * ktol * nrm(Kt[:, s_]) * nrm(beta[:, s_]) for s_ in range(t))
+        ctx.h("fit_tol_useful", bool(tolM < 1e-4 * (1 + float(np.max(np.abs(mean_r))))))
+        if mu.shape != mean_r.shape or not np.all(np.abs(mu - mean_r) <= tolM):
+            viol("model.predict means differ from the dense posterior of the data of this fit under get_params() by %.3g "
+                 "(tol %.3g)" % (float(np.max(np.abs(mu - mean_r))) if mu.shape == mean_r.shape else float("nan"), tolM),
+                 "mean", step)
+        if var.shape != var_r.shape or not np.all(np.abs(var - var_r) <= tolV):
+            viol("model.predict variances differ from the dense posterior of the data of this fit under get_params() by "
+                 "%.3g (tol %.3g)" % (float(np.max(np.abs(var - var_r))) if var.shape == var_r.shape else float("nan"), tolV),
+                 "variance", step)
+
+    config = OptimizationConfig(lbfgs_tol=1e-6, lbfgs_maxiter=15, verbose=False, n_starts=spec["n_starts"])
+    model = GaussianProcessRegression(kernel=Matern52(dimension=d, ARD=spec["ard"]), optimization_config=config,
+                                      random_seed=spec["data_seed"] % 1000, fit_reset_params=spec["reset"])
+    failing = mock.patch.object(optimization_utils.optimize, "minimize", side_effect=_failing_minimize)
+    ctx.h("fit_stream", "first_fit_fails" if spec["first_fails"] else "first_fit_ok")
+    if spec["first_fails"]:
+        with failing:
+            model.fit({"features": XA.copy(), "targets": yA.copy()})
+        check(model, XA, yA, "first fit, every restart fails")
+    else:
+        model.fit({"features": XA.copy(), "targets": yA.copy()})
+        check(model, XA, yA, "first fit")
+    with mock.patch.object(optimization_utils.optimize, "minimize", side_effect=_failing_minimize):
+        model.fit({"features": XB.copy(), "targets": yB.copy()})
+    check(model, XB, yB, "refit on more data, every restart fails")
+    model.fit({"features": XB.copy(), "targets": yB.copy()})
+    check(model, XB, yB, "refit, optimiser works")
+    ctx.count(("gpf", spec), nontrivial=True)
